@@ -272,6 +272,12 @@ def _split(I, sv: Any, pred, st, expr) -> list:
     return out
 
 
+def _deep_concrete(v: Any) -> bool:
+    if isinstance(v, (tuple, frozenset)):
+        return all(_deep_concrete(x) for x in v)
+    return is_concrete(v)
+
+
 def _equal(I, l: Any, r: Any, st, lexpr, rexpr) -> list:
     for side, expr, other in ((l, lexpr, r), (r, rexpr, l)):
         if isinstance(side, OneOf):
@@ -287,6 +293,17 @@ def _equal(I, l: Any, r: Any, st, lexpr, rexpr) -> list:
         return _split(I, r, lambda x: x == l, st, rexpr)
     if any(isinstance(x, Unknown) and x.why.startswith("len:") for x in (l, r)):
         return _fork(st)
+    if isinstance(l, tuple) and isinstance(r, tuple) and not (_deep_concrete(l) and _deep_concrete(r)):
+        # element-wise, left to right
+        if len(l) != len(r):
+            return [(False, st)]
+        pending = [(True, st)]
+        for a, b in zip(l, r):
+            nxt = []
+            for ok, s2 in pending:
+                nxt.extend(_equal(I, a, b, s2, None, None) if ok else [(False, s2)])
+            pending = nxt
+        return pending
     if is_concrete(l) and is_concrete(r):
         return [(l == r and type(l) is type(r) or (l == r and not isinstance(l, bool) and not isinstance(r, bool)), st)]
     if (isinstance(l, Ref) and is_concrete(r) and r is not None and not isinstance(r, tuple)) or (isinstance(r, Ref) and is_concrete(l) and l is not None and not isinstance(l, tuple)):
@@ -319,10 +336,29 @@ def _equal(I, l: Any, r: Any, st, lexpr, rexpr) -> list:
                     else:
                         out.extend(I.truth_fork(v, s2))
                 return out
+        if hl.kind == "obj" and hr.kind == "obj" and hl.cls in I.model.classes and hr.cls in I.model.classes and is_dataclass(I.model.classes[hl.cls]) \
+                and I.model.find_method(I.model.classes[hl.cls], "__eq__") is None:
+            # the generated dataclass / NamedTuple __eq__: same class and field-wise equal
+            if hl.cls != hr.cls:
+                return [(False, st)]
+            names = [f[0] if isinstance(f, tuple) else f for f in dataclass_fields(I, I.model.classes[hl.cls])]
+            pending = [(True, st)]
+            for nm in names:
+                nxt = []
+                for b, s2 in pending:
+                    if not b:
+                        nxt.append((False, s2))
+                        continue
+                    nxt.extend(_equal(I, s2.obj(l).fields.get(nm), s2.obj(r).fields.get(nm), s2, None, None))
+                pending = nxt
+            return pending
         if hl.kind == hr.kind and hl.kind in ("list", "set") and all(is_concrete(x) for x in hl.items + hr.items):
             if hl.kind == "set":
                 return [(set(hl.items) == set(hr.items), st)]
             return [(hl.items == hr.items, st)]
+        if hl.kind == hr.kind == "dict" and all(is_concrete(x) for x in list(hl.fields.values()) + list(hr.fields.values())):
+            return [(hl.fields == hr.fields, st)]
+        st.note(f"equality of two heap objects ({hl.kind} {hl.cls} / {hr.kind} {hr.cls})")
         return _fork(st)
     if (l is None) != (r is None):
         other = r if l is None else l
